@@ -36,12 +36,13 @@ RULE = (
     "distinct (backend, pacing, consumer, symbol sequence)."
 )
 ASSUMPTIONS = [
+    "end-to-end shards: a real gunicorn/uvicorn server process tree started from the tree under test (vf/e2e_launch.py: the repository's run_with_gunicorn / run_with_uvicorn; the SQL schema is made with the repository's metadata.create_all because its alembic env.py does not run with the installed SQLAlchemy; the notifier's fixed TCP port 6000 is replaced by a free port), spoken to over loopback TCP with the websockets client; real time, real sleeps",
     "a command is complete when the handler asks for the next frame (the handler loop is strictly sequential per connection)",
     "replacement filters are disjoint (kind 1 vs kind 7), so every EVENT frame identifies the generation it belongs to",
     "LMDB backend over /verif/shim; SQL = SQLite",
 ]
 MIN_NONTRIVIAL = {"quick": 800, "thorough": 8000}
-REQUIRED_COUNTERS = ["clause.eose", "clause.refused_notice", "clause.after_close", "clause.limit", "clause.after_exit", "clause.answered_despite_fault", "clause.answered_in_burst"]
+REQUIRED_COUNTERS = ["e2e.e2e_reqs", "e2e.e2e_refused_reqs", "clause.eose", "clause.refused_notice", "clause.after_close", "clause.limit", "clause.after_exit", "clause.answered_despite_fault", "clause.answered_in_burst"]
 SHARD_TIMEOUT = {"quick": 600, "thorough": 3200}
 
 F1 = {"kinds": [1]}
@@ -50,6 +51,18 @@ SYMS = ["REQa1", "REQa2", "REQb1", "REQa-", "REQa!", "REQa#", "REQa~", "CLOSEa",
 
 
 def plan(tier, seed):
+    return _plan(tier, seed) + e2e_plan(tier, seed)
+
+
+def e2e_plan(tier, seed):
+    """shards on a REAL server process tree (vf/e2e.py)"""
+    out = []
+    for i in range(1 if tier == "quick" else 4):
+        out += [{"mode": "e2e", "e2e": "wire", "backend": b, "seed": seed * 7919 + 100 + i, "nevents": 30} for b in ("sql", "lmdb")]
+    return out
+
+
+def _plan(tier, seed):
     depth = 3 if tier == "quick" else 4
     shards = []
     seqs = list(itertools.product(SYMS, repeat=depth))
@@ -429,6 +442,10 @@ def random_seq(r, n):
 
 
 def run_shard(spec):
+    if spec.get("mode") == "e2e":
+        from .. import e2e_cases
+
+        return e2e_cases.run_e2e_shard(ID, spec)
     try:
         return _run_shard(spec)
     except R.Inconclusive as e:
@@ -480,6 +497,10 @@ def _run_shard(spec):
 
 
 def replay(rp, spec):
+    if rp.get("mode") == "e2e":
+        from .. import e2e_cases
+
+        return e2e_cases.run_e2e_shard(ID, rp)
     counters = {}
     if "shard" in rp:
         return run_shard(rp["shard"])
